@@ -37,7 +37,38 @@ INFO = {
    "an imported function that is a root (elem, re-export, start) and not the target of any direct call"),
  "C11-lower-join-keeps-next": ("heap_malloc.wat.ws $wa_l128_free: joining with the lower neighbour no longer sets p->next = bp->next; after an upper merge the absorbed upper block stays on the free list",
    "three address-adjacent blocks of the variable-size list, the outer two freed first and the middle one last, then two allocations served from the stale node and the merged block"),
- "C04": ("", ""),
+ "C04-label-shadow-outermost": ("wat2wasm_helper.go findLabelIndex walks the label stack from the outermost scope: a label name bound twice in nested block/loop/if resolves to the outer binding",
+   "a function with two nested blocks/loops/ifs carrying the same label name and a br/br_if/br_table naming it from inside the inner one"),
+ "C18-la64-carry-boundary-0x800": ("internal/native/pcrel/la64.go MakeLa64PCRel: hi20 carry applied for lo12 > 0x800 instead of >= 0x800",
+   "a pcalau12i/addi.d pair whose target address has low 12 bits exactly 0x800"),
+ "C19-u32-fifth-byte-bound": ("internal/wasm/leb128 decodeUint32: fifth-byte overflow test `b > 0x07` (was `b&0xf0 > 0`): values with bit 31 set are rejected as overflowing",
+   "an unsigned 32-bit LEB128 value >= 2^31 decoded with DecodeUint32/LoadUint32"),
+ "C25-mid-flag-lost-on-idle-poll": ("internal/3rdparty/slip Reader.ReadPacket: `mid` (packet in progress) recomputed from the current call only, an idle poll that reads nothing clears it",
+   "all payload bytes of a packet delivered as prefix, at least one further ReadPacket call on a dry transport, then the terminating END arrives"),
+ "C26-header-slice-overwritten": ("go-dap readContentLengthHeader keeps the bufio.ReadSlice view of the header across the next read: a refill overwrites it before it is parsed",
+   "a stream delivered in pieces such that bufio's buffer runs empty while the three delimiter bytes after the header's CR are fetched"),
+ "C30-trap-with-matching-output": ("apptest.runTest: the error guard only fires for exit errors; a trap whose captured stdout equals the declared Output is `continue`d and the package reported ok",
+   "a test/example function with an `// Output:` comment that ends in a WebAssembly trap after printing exactly the declared output"),
+ "C24-in-place-filter-skips-neighbour": ("loader.Import filters build-tagged files in place while iterating: the file following a removed one is never evaluated and stays in the package",
+   "a non-main package with two files adjacent in sorted name order whose constraints are both false"),
+ "C23-defer-assert-pos-of-keyword": ("compile_func.go genMakeDefer passes inst.Pos() (the defer keyword) instead of inst.Call.Pos() to genBuiltin: a failing deferred assert reports the wrong column",
+   "unit-test mode, an assert called through defer, and the assertion fails"),
+ "C29-exit-during-init-status-lost": ("internal/wazero Module.RunMain no longer returns early on an exit-type error of the instantiation: main is called on the closed module and the result becomes exit code 0",
+   "a program that calls the exit function or panics while package-level variables / init functions run (before main)"),
+ "C27-anon-struct-counter-global": ("anonymous-struct naming moved to a package-level counter in wir that is never reset: the second compile of the same source in one process numbers the types differently",
+   "more than one compilation in the same process of a program with an anonymous struct type whose name reaches the output (ref-counted field, heap-allocated or boxed)"),
+ "C20-divuw-zero-extends": ("wemu riscv64 cpu.go DIVUW: the int32 cast was dropped, the 32-bit quotient is zero- instead of sign-extended",
+   "DIVUW with low word of rs2 == 1 and bit 31 of rs1 set (quotient >= 2^31)"),
+ "C14-parseuint-64-wrap-undetected": ("waroot/src/strconv/atoi.wa ParseUint: the `n1 < n` wrap test removed from the digit loop; with bitSize 64 the remaining `n1 > maxVal` can never fire",
+   "ParseUint/ParseInt with bitSize 64 on a string whose value is 2^64..2^64+3 followed by any digits (prefix*base fits, +digit wraps) in a base that is not a power of two"),
+ "C31-rem64-minus1-check-32bit": ("vendored wazero amd64 compiler performDivisionOnInts: the 64-bit `divisor == -1` shortcut of signed remainder compares with CMPL (low 32 bits only)",
+   "i64.rem_s on the amd64 compiler engine with a divisor != -1 whose low 32 bits are all ones and a dividend that is not a multiple of it"),
+ "C08-float-const-div-zero-panics": ("internal/types expr.go binary: the zero-divisor check only looks at integer operands, constant.BinaryOp panics on a constant float division by zero and the panic escapes the loader",
+   "a `/` whose dividend is a constant of non-integer type and whose divisor is a constant zero"),
+ "C03-wat2c-trunc-i64-lower-bound": ("wat2c: lower bound passed to WASM_TRUNC for i64.trunc_f32_s/f64_s changed from the next double below -2^63 to -2^63: the C code aborts for exactly -2^63",
+   "i64.trunc_f64_s / i64.trunc_f32_s translated by wat2c, compiled with gcc and called with exactly -2^63"),
+ "C02-x64-convert-u32-signed": ("wat2x64 f64.convert_i32_u converts from eax instead of the zero-extended rax: u32 values >= 2^31 become value - 2^32",
+   "a native x64 build that executes f64.convert_i32_u on a non-constant operand >= 2147483648"),
 }
 
 for d in sorted(glob.glob(os.path.join(V, "seeded", "*"))):
